@@ -2048,6 +2048,12 @@ class RedunBackendDb(RedunBackend):
             value_row = session.get(Value, value_hash)
             if value_row:
                 # Value already recorded.
+                if data and value_row.in_value_store:
+                    # The row is an empty placeholder from an earlier offload to the
+                    # value store, but this time the bytes stay in the db. Keep them,
+                    # so the value reads back even if the store object is gone.
+                    value_row.value = data
+                    session.commit()
                 return value_hash
 
             type_name = self.type_registry.get_type_name(type(value))
